@@ -176,7 +176,7 @@ pub fn as_position(index: usize, text: &str) -> Position {
             line += 1;
             character = 0;
         } else {
-            character += 1;
+            character += c.len_utf16() as u32;
         }
     }
     Position { line, character }
@@ -214,7 +214,7 @@ pub fn get_insertion_index(position: &Position, text: &str) -> usize {
             line += 1;
             character = 0;
         } else {
-            character += 1;
+            character += c.len_utf16() as u32;
         }
     }
     text.len()
